@@ -21,7 +21,7 @@ def find_concat(data: bytes) -> list[Node]:
     return [
         Node(
             "string",
-            re.sub(rb"['\"]" + CONCAT_SPACER_RE + rb"['\"]", b"", match.group())[1:-1],
+            b"".join(string[1:-1] for string in re.findall(STRING_RE, match.group())),
             "concatenation",
             match.start(),
             match.end(),
